@@ -288,7 +288,9 @@ def hostClass (s : String) : Option (Bool × List Bytes) :=
 def parseRoute (s : String) : Option Route :=
   if s == "ok" then some .respond
   else if s == "err" || s == "herr" then some .fail
-  else if s == "px" || s == "rl" then some .proxyOk
+  else if s == "px" || s == "rl" || s == "up" || s == "rlu" || s == "hr" then some .proxyOk
+  else if s == "rt" then some .proxyRetry
+  else if s == "ic" then some .respond
   else if s == "pxe" || s == "rle" then some .proxyErr
   else if s == "fcg" then some .fcgiErr
   else none
